@@ -70,14 +70,14 @@ def plan(rng, k, emphasis):
     return readers, updaters, extra
 
 
-def suite(chk, nseeds, emphasis, own_kinds, rops=30, uops=3, extra_all=()):
+def suite(chk, nseeds, emphasis, own_kinds, rops=30, uops=3, extra_all=(), configs=None):
     """Run the gp scenarios; records coverage in chk; returns list of failing results."""
     hist = {}
     fails = []
     nontriv = set()
     events = 0
     per_cfg = {}
-    for ci, (flavor, memb, cname) in enumerate(CONFIGS):
+    for ci, (flavor, memb, cname) in enumerate(configs or CONFIGS):
         for k in range(nseeds):
             sd = chk.seed * 1000 + k
             readers, updaters, extra = plan(chk.rng, k, emphasis)
@@ -178,18 +178,18 @@ def sweep(chk, own_kinds, record=True, wide=False):
     return fails
 
 
-def search_own(chk, own_kinds, emphasis, n=400):
+def search_own(chk, own_kinds, emphasis, n=400, extra_all=(), configs=None):
     """Extended schedule search with the implementation oracles."""
     def go():
         if emphasis == "liveness":
             for r in sweep(chk, own_kinds, record=False, wide=True):
                 if r["verdict"] == "oracle" and any(x in own_kinds for x in r["kinds"]):
                     return r
-        for ci, (flavor, memb, cname) in enumerate(CONFIGS):
+        for ci, (flavor, memb, cname) in enumerate(configs or CONFIGS):
             for k in range(n):
                 sd = chk.seed * 1000 + 500000 + k
                 readers, updaters, extra = plan(chk.rng, k, emphasis)
-                r = one(flavor, memb, sd, readers, updaters, 40, 3, extra)
+                r = one(flavor, memb, sd, readers, updaters, 40, 3, list(extra) + list(extra_all))
                 if r["verdict"] == "oracle" and any(x in own_kinds for x in r["kinds"]):
                     r["config"] = cname
                     return r
